@@ -10,7 +10,7 @@ SPEC = {
         "database round trip through CCoinsViewCache::Flush into an in-memory LevelDB CCoinsViewDB (one per worker process)",
     ],
     "stages": [
-        gen("vh_c18", "c18_coincodec", 800000, 12000000, min_cases_quick=100000,
+        gen("vh_c18", "c18_coincodec", 600000, 10000000, min_cases_quick=100000,
             floors={"special:0": 0.03, "special:1": 0.03, "special:2": 0.01, "special:3": 0.01, "special:4": 0.01, "special:5": 0.01, "script-near-miss": 0.15,
                     "amount:e=9": 0.02, "amount:e=1..8": 0.04, "amount:near-round": 0.1, "db-roundtrip": 0.1, "height=0": 0.03, "height>=2^30": 0.05,
                     "script:generic-oversize": 0.005, "multi-undo": 0.1},
@@ -21,7 +21,7 @@ SPEC = {
 }
 
 META = {
-    "level_text": "800k generated coins per quick run (boundary-biased amounts, every special script template with near misses at each template position, valid / "
+    "level_text": "600k generated coins per quick run (boundary-biased amounts, every special script template with near misses at each template position, valid / "
                   "off-curve / hybrid / non-canonical uncompressed keys, script lengths around every encoding boundary, height and coinbase extremes) are serialized as "
                   "Coin, TxInUndo and CTxUndo records and compared byte-for-byte with an independent reference encoder, read back, and a sample is written through "
                   "a real CCoinsViewDB; plus an exhaustive sweep of 23M amounts. Exploration: sampled inputs; the exhaustive part covers only the listed amount ranges.",
